@@ -9,7 +9,7 @@ from ..chains import extract_chains
 from ..core import (AnalysisError, call_attr, call_name, calls_in, dotted, func_params, get_kw, norm, qualname, short)
 from ..driver import Knockout, sub_nth, sub_once
 from ..report import Ctx
-from ..rules import gatesum, hooks
+from ..rules import gatesum, hooks, shapes
 from ..rules.hooks import BASE, COMPILERS, DM, STAB
 
 EXPLANATION = (
@@ -42,6 +42,7 @@ def run(ctx: Ctx) -> None:
     rule_determinism_map(ctx)
     rule_init_zero(ctx)
     rule_reset_zero(ctx)
+    shapes.rule_kron_layout(ctx)
     gatesum.rule_derived_gates(ctx)
     rule_gate_table(ctx)
     ctx.floor("sibling.qindex", 40)
@@ -511,6 +512,14 @@ def _swap_first(a: str, b: str):
 KNOCKOUTS = [
     Knockout("A1-reintroduce-shadow", DM, _swap_first("elif isinstance(op, ops.MeasurementCNOTandReset):", "elif isinstance(op, ops.ClassicalControlledPairOperationBase):"),
              "dispatch.shadow", "MeasurementCNOTandReset"),
+    Knockout("kron-one-qubit-offbyone", "graphiq/backends/density_matrix/functions.py",
+             sub_once("    final_gate = np.kron(final_gate, np.identity(2 ** (n_qubits - qubit_position - 1)))", "    final_gate = np.kron(final_gate, np.identity(2 ** (n_qubits - qubit_position)))"),
+             "kron.layout", "get_one_qubit_gate"),
+    Knockout("kron-controlled-swapped", "graphiq/backends/density_matrix/functions.py",
+             sub_once("            np.kron(np.eye(2**target_qubit), target_gate - np.eye(2)),\n            np.eye(2 ** (control_qubit - target_qubit - 1)),",
+                      "            np.kron(np.eye(2**target_qubit), np.eye(2) - sigmaz()),\n            np.eye(2 ** (control_qubit - target_qubit - 1)),"),
+             "kron.layout", "control_qubit > target_qubit"),
+    Knockout("projectors-order", "graphiq/backends/density_matrix/functions.py", sub_once("    return [projector0, projector1]", "    return [projector1, projector0]"), "kron.layout", "projectors_zbasis"),
     Knockout("reset-to-one", gatesum.SSTATE, sub_nth("qubit_position, 0, measurement_determinism", "qubit_position, 1, measurement_determinism", 0), "reset.zero", "reset_qubit"),
     Knockout("reset-kraus", "graphiq/backends/density_matrix/functions.py", sub_once("    kraus1 = np.array([[0, 1], [0, 0]])", "    kraus1 = np.array([[0, 0], [0, 1]])"), "reset.zero", "Kraus"),
     Knockout("A2-delete-CZ-branch", STAB,
